@@ -306,6 +306,23 @@ func (c *ctx) call(x *ast.CallExpr, mode string) []instr {
 		case "go":
 			return append(out, instr{op: "Go", a: c.closureBody(cl)})
 		case "defer":
+			// defer func() { w.mux.Unlock() }()  is the same as  defer w.mux.Unlock()
+			if body := c.closureBody(cl); len(body) > 0 {
+				only := true
+				for _, i := range body {
+					if i.op != "Unlock" && i.op != "Ext" {
+						only = false
+					}
+				}
+				if only {
+					for k := len(body) - 1; k >= 0; k-- {
+						if body[k].op == "Unlock" {
+							out = append(out, instr{op: "DeferUnlock", arg: body[k].arg})
+						}
+					}
+					return out
+				}
+			}
 			name := c.emitClosure(cl, "defer")
 			return append(out, instr{op: "DeferCall", arg: name})
 		}
